@@ -23,7 +23,8 @@ DRIVER = "C08"
 RULE = ("scripted runs of async_map_unordered: n inputs, per submission (ok|error, duration in virtual seconds), use_backups "
         "{on,off}, batch_size {none, <n, >=n}; small family n<=4 (thorough: every outcome assignment x every tie pattern "
         "(ordered set partitions, two time scales) x every batch size 1..n+1 x backups on/off; quick: seeded sample), large "
-        "family n in 10..30 with stragglers so that backups launch, twins tie or fail, batch_size>=10 with backups; "
+        "family n in 10..30 with stragglers so that backups launch, twins tie or fail, batch_size>=10 with backups, plus a "
+        "sub-family (3 of 8) where the original of a straggler fails while its slow backup is still pending for further rounds; "
         "non-trivial = at least one failure, tie, backup or batch refill; distinct by case text. end to end: 3..30-chunk "
         "computations, retries {default,0,1,2} x k in 0..3 injected failures x get/set x executor")
 ASSUMPTIONS = [
